@@ -74,8 +74,23 @@ def regenerate(prop):
     return ""
 
 
-def target_dir(prop):
-    return os.path.join(WORK, "target-" + prop.lower() + TAG)
+LANES = max(1, int(os.environ.get("VERIF_LANES", "8")))
+COMPILE_CAP = int(os.environ.get("VERIF_COMPILE_CAP", "2400"))
+_LANE_OF = {}
+
+
+def lane_dir(k):
+    """Compile lanes. `cargo kani` holds cargo's build-directory lock for the whole codegen
+    of a harness (20-60 s each, single-threaded), so harnesses that share one target
+    directory are compiled one after the other however many workers there are. The
+    harnesses of a run are therefore spread over LANES target directories that are
+    shared by all properties (the dependency tree, gamedig included, is compiled once
+    per lane, not once per property)."""
+    return os.path.join(WORK, "lane-%d%s" % (k, TAG))
+
+
+def target_dir(prop, name=None):
+    return lane_dir(_LANE_OF.get(name, 0))
 
 
 def private_harness():
@@ -100,15 +115,12 @@ def build(prop):
         shutil.copy(os.path.join(REPO, "Cargo.lock"), lock)
     # kani keeps one output directory per (crate hash, harness filter); remove the
     # harness crate's old outputs so that the metadata read below is this build's
-    for pat in ("kani/*/debug/build/gdverif", "kani/*/debug/deps/*gdverif*", "kani/*/debug/.fingerprint/gdverif*"):
-        for f in glob.glob(os.path.join(target_dir(prop), pat)):
-            if os.path.isdir(f):
-                shutil.rmtree(f, ignore_errors=True)
-            else:
-                try:
-                    os.remove(f)
-                except OSError:
-                    pass
+    for k in range(LANES):
+        for f in glob.glob(os.path.join(lane_dir(k), "kani/*/debug/build/gdverif/*/out/*gdverif*%s_*" % prop.lower())):
+            try:
+                os.remove(f)
+            except OSError:
+                pass
     # type-check the harness crate against /repo natively first: a tree that does not
     # build is reported once, clearly, instead of as N harnesses without a verdict
     cmd = ["cargo", "check", "--offline", "--features", prop.lower(), "--target-dir",
@@ -249,7 +261,7 @@ def limit():
 
 def run_harness(prop, name, timeout, logdir, playback=False):
     cmd = ["cargo", "kani", "--features", prop.lower(), "-Z", "stubbing",
-           "--target-dir", target_dir(prop), "--harness", name, "--exact"]
+           "--target-dir", target_dir(prop, name), "--harness", name, "--exact"]
     if playback:
         cmd += ["-Z", "concrete-playback", "--concrete-playback=print"]
     xa = extra_args(prop, name)
@@ -269,22 +281,46 @@ def run_harness(prop, name, timeout, logdir, playback=False):
     logf = os.path.join(logdir, name.replace("::", "__") + (".playback" if playback else "") + ".log")
     t0 = time.time()
     timed_out = False
+    cbmc_start = None
     with open(logf, "w") as f:
         p = subprocess.Popen(cmd, cwd=HARNESS, env=env(), stdout=f, stderr=subprocess.STDOUT,
                              preexec_fn=limit)
-        try:
-            p.wait(timeout=timeout)
-        except subprocess.TimeoutExpired:
-            timed_out = True
+        # The time cap applies to the model checker (symbolic execution + SAT), counted from
+        # the moment CBMC starts; waiting for the lane's cargo lock and the codegen of the
+        # harness are capped separately (COMPILE_CAP).
+        pos = 0
+        while True:
             try:
-                os.killpg(p.pid, 9)
-            except Exception:
+                p.wait(timeout=1.0)
+                break
+            except subprocess.TimeoutExpired:
                 pass
-            p.wait()
+            now = time.time()
+            if cbmc_start is None:
+                try:
+                    with open(logf, "rb") as lf:
+                        lf.seek(pos)
+                        chunk = lf.read(1 << 20)
+                        if b"CBMC version" in chunk or b"Starting Bounded Model Checking" in chunk:
+                            cbmc_start = now
+                        pos = max(0, pos + len(chunk) - 64)
+                except OSError:
+                    pass
+            over = (cbmc_start is not None and now - cbmc_start > timeout) or \
+                   (cbmc_start is None and now - t0 > COMPILE_CAP)
+            if over:
+                timed_out = True
+                try:
+                    os.killpg(p.pid, 9)
+                except Exception:
+                    pass
+                p.wait()
+                break
     wall = time.time() - t0
     text = open(logf, errors="replace").read()
     res = parse_log(text)
     res["wall_s"] = round(wall, 1)
+    res["compile_s"] = round((cbmc_start or time.time()) - t0, 1)
     res["timed_out"] = timed_out
     res["log"] = logf
     res["name"] = name
@@ -299,10 +335,10 @@ def resolve_unwindset(prop, name, spec):
     `cbmc --show-loops`). Unwinding assertions stay on: a bound that is too small for a
     feasible path is reported, never silently cut."""
     cmd = ["cargo", "kani", "--features", prop.lower(), "-Z", "stubbing", "--only-codegen",
-           "--target-dir", target_dir(prop), "--harness", name, "--exact"]
+           "--target-dir", target_dir(prop, name), "--harness", name, "--exact"]
     r = subprocess.run(cmd, cwd=HARNESS, env=env(), capture_output=True, text=True)
     fn = name.split("::")[-1]
-    outs = glob.glob(os.path.join(target_dir(prop), "kani", "*", "debug", "build", "gdverif", "*", "out", "*%s.out" % fn))
+    outs = glob.glob(os.path.join(target_dir(prop, name), "kani", "*", "debug", "build", "gdverif", "*", "out", "*%s.out" % fn))
     outs = [o for o in outs if re.search(r"\d+%s\.out$" % re.escape(fn), o)]
     if not outs:
         return ""
@@ -415,6 +451,8 @@ def main():
         log("INCONCLUSIVE: no harness found for %s" % prop)
         sys.exit(2)
     jobs = args.jobs or min(16, os.cpu_count() or 4)
+    for i, n in enumerate(names):
+        _LANE_OF[n] = i % LANES
     timeout = QUICK_TIMEOUT if tier == "quick" else THOROUGH_TIMEOUT
     logdir = os.path.join(WORK, "logs-" + prop.lower() + TAG)
     shutil.rmtree(logdir, ignore_errors=True)
@@ -499,7 +537,7 @@ def main():
                         "cbmc_checks": r["checks"], "failed_checks": len(r["failed"]),
                         "covers": "%d/%d" % (r["covers_sat"], r["covers_total"]),
                         "sat_vars": r["vars"], "sat_clauses": r["clauses"],
-                        "symex_s": r["symex_s"], "solver_s": round(r["solver_s"], 2), "wall_s": r["wall_s"],
+                        "symex_s": r["symex_s"], "solver_s": round(r["solver_s"], 2), "wall_s": r["wall_s"], "compile_and_queue_s": r.get("compile_s"),
                         })
     bounds_file = os.path.join(HARNESS, "src", prop.lower() + ".bounds.json")
     bounds = json.load(open(bounds_file)) if os.path.exists(bounds_file) else {}
@@ -564,7 +602,14 @@ def main():
     for (n, w) in inconclusive:
         log("INCONCLUSIVE: %s: %s" % (n, w))
     if not args.keep and not os.environ.get("VERIF_KEEP"):
-        pass  # target dirs are reused between runs of the same property; `make clean` removes .work
+        # the goto binaries of this run (up to 90 MB per harness) are not needed any more; the
+        # lanes keep the compiled dependency tree for the next property
+        for k in range(LANES):
+            for f in glob.glob(os.path.join(lane_dir(k), "kani/*/debug/build/gdverif/*/out/*gdverif*%s_*" % prop.lower())):
+                try:
+                    os.remove(f)
+                except OSError:
+                    pass
     if confirmed:
         sys.exit(1)
     if inconclusive:
